@@ -32,6 +32,10 @@ const (
 	ibltHk      = uint32(1)
 	ibltK       = uint8(6)
 	bucketBytes = 44 // = int32 + uint64 + hash.SHA256HashSize
+	// ibltMaxChain bounds the hash chain walked by bucketIndices. The chain next -> murmur3(hk, next) has short cycles
+	// (for hk = 1: a fixed point, a 2-cycle and a 3-cycle) on which it never yields k distinct buckets.
+	// For 1024 buckets every other start value needs at most 10 steps, so results for those are unchanged.
+	ibltMaxChain = 64
 )
 
 // ErrDecodeNotPossible is returned when the Iblt cannot be decoded.
@@ -201,19 +205,35 @@ func (i *Iblt) numBuckets() int {
 }
 
 func (i *Iblt) bucketIndices(hash uint64) []uint32 {
+	numBuckets := uint32(i.numBuckets())
+	// there can't be more distinct indices than buckets
+	k := int(i.k)
+	if uint32(k) > numBuckets {
+		k = int(numBuckets)
+	}
 	bucketUsed := make(map[uint32]bool, i.k)
 	indices := make([]uint32, 0, i.hk)
 	hashKeyBytes, nextBytes := make([]byte, 8), make([]byte, 4)
 	byteOrder.PutUint64(hashKeyBytes, hash)
 	next := murmur3.SeedSum32(i.hk, hashKeyBytes)
-	for len(indices) < int(i.k) {
-		bucketID := next % uint32(i.numBuckets())
+	var bucketID uint32
+	for step := 0; len(indices) < k && step < ibltMaxChain; step++ {
+		bucketID = next % numBuckets
 		if !bucketUsed[bucketID] {
 			indices = append(indices, bucketID)
 			bucketUsed[bucketID] = true
 		}
 		byteOrder.PutUint32(nextBytes, next)
 		next = murmur3.SeedSum32(i.hk, nextBytes)
+	}
+	// The hash chain is stuck in a short cycle (a key chosen by an attacker can do that): take the missing buckets
+	// by probing linearly from the last bucket. This always terminates.
+	for off := uint32(1); len(indices) < k && off < numBuckets; off++ {
+		probe := (bucketID + off) % numBuckets
+		if !bucketUsed[probe] {
+			indices = append(indices, probe)
+			bucketUsed[probe] = true
+		}
 	}
 	return indices
 }
